@@ -144,8 +144,13 @@ Proof.
 Qed.
 
 
-(* SpJoin is entered from AJoin only *)
-Definition JoinHead (w : world) : Prop := forall u, pc (th w u) = SpJoin -> exists j, head (th w u) = AJoin j.
+(* SpJoin is entered from AJoin only, SpReg from ASpawn only *)
+Definition JoinHead (w : world) : Prop := forall u,
+  match pc (th w u) with
+  | SpJoin => exists j, head (th w u) = AJoin j
+  | SpReg => exists j, head (th w u) = ASpawn j
+  | _ => True
+  end.
 
 Lemma JoinHead_step : forall t w w', JoinHead w -> wstep cfg_fixed t w = Some w' -> JoinHead w'.
 Proof.
@@ -161,7 +166,7 @@ Proof.
   intros u w w' HJ Hs H. pose proof (HJ u) as Hu. unfold safe_to_access in *.
   step_cases_fixed H.
   all: prep; rewrite ?Nat.eqb_refl; simpl; try discriminate; auto; try congruence.
-  all: try (destruct Hu as [j0 Ej]; [reflexivity| congruence]).
+  all: try (destruct Hu as [j0 Ej]; congruence).
 Qed.
 
 Definition Stopped (w : world) : Prop := forall h s t, pc (th w h) = Stw s -> covered s t = true ->
@@ -354,7 +359,7 @@ Proof.
   assert (Hn : forall t s, pc (th (init progs) t) <> Stw s).
   { intros t s E. destruct (pc_init_cases progs t) as [A|[A|A]]; rewrite A in E; discriminate. }
   split; [apply Inv_init|]. split; [intros h s E; exfalso; eapply Hn; eauto|].
-  split; [intros u E; destruct (pc_init_cases progs u) as [A|[A|A]]; rewrite A in E; discriminate|].
+  split; [intros u; destruct (pc_init_cases progs u) as [A|[A|A]]; rewrite A; exact I|].
   split; [intros h s t E; exfalso; eapply Hn; eauto | intros h p k E; exfalso; eapply Hn; eauto].
 Qed.
 
@@ -392,8 +397,8 @@ Qed.
 
 Lemma window_free_example :
   window_free cfg_fixed wf_sched (init wf_progs) = true /\
-  pc (th (run cfg_fixed (firstn 22 wf_sched) (init wf_progs)) 0) = Stw (SAccess 1 1) /\
-  pc (th (run cfg_fixed (firstn 28 wf_sched) (init wf_progs)) 0) = Stw (SAccess 2 1) /\
-  window_free cfg_fixed (firstn 28 wf_sched) (init wf_progs) = true /\
+  pc (th (run cfg_fixed (firstn 27 wf_sched) (init wf_progs)) 0) = Stw (SAccess 1 1) /\
+  pc (th (run cfg_fixed (firstn 33 wf_sched) (init wf_progs)) 0) = Stw (SAccess 2 1) /\
+  window_free cfg_fixed (firstn 33 wf_sched) (init wf_progs) = true /\
   env_gen (run cfg_fixed wf_sched (init wf_progs)) = 1.
 Proof. vm_compute. auto. Qed.
